@@ -121,6 +121,11 @@ CORPUS = ["xy^2", "xyz^2", "2xy^3", "8/4/2", "8/4*2", "2*3/4", "a/b/c", "a*b/c*d
 def strings(ctx, n):
     rnd = ctx.rnd
     ss = CORPUS + gens.strings(rnd, n)
+    # integer literals beyond 2^53 (not representable as doubles) and long decimals: the reading must keep every digit
+    ss += ["9007199254740993", "9007199254740993 - 9007199254740992", "18446744073709551617x", "123456789012345678901234567890", "2^9007199254740993"]
+    for _ in range(max(6, n // 40)):
+        big = str(rnd.choice([2 ** 53, 2 ** 63, 2 ** 64, 10 ** rnd.randint(16, 30)]) + rnd.randint(1, 999))
+        ss.append(rnd.choice([big, big + "x", big + " + 1", "x^" + big, "-" + big, big + " - " + str(int(big) - 1), "(" + big + ")y^2"]))
     # product / quotient chains (where the documented left-to-right order matters)
     for _ in range(max(10, n // 15)):
         k = rnd.randint(3, 5)
